@@ -1,7 +1,740 @@
-//! C09 — not implemented yet.
-use vmon::report::Args;
+//! C09 — branches, tags and shallow clones are isolated references.
+//!
+//! (i) tag model, (ii) every other ref re-read after every step, (iii) storage footprint of every
+//! step incl. delete_branch, (iv) name grammar (exhaustive over a small alphabet), (v) a new branch /
+//! clone starts with exactly the contents of (parent, version), (vi) tags open through the builder.
+use crate::hist::{Extra, Hist, HistCfg, Loc, OpKind, StepRec, Weights};
+use crate::walker::uri_to_path;
+use lance::dataset::refs::{check_valid_branch, check_valid_tag};
+use serde_json::json;
+use std::collections::BTreeSet;
+use vmon::prng::Rng;
+use vmon::report::{Args, Report};
+use vmon::store::Kind;
 
-pub fn run(_args: &Args) -> i32 {
-    eprintln!("HARNESS-ERROR C09 not implemented");
-    2
+fn weights() -> Weights {
+    use OpKind::*;
+    vec![
+        (12, BranchCreate),
+        (6, BranchDelete),
+        (8, TagCreate),
+        (5, TagUpdate),
+        (3, TagDelete),
+        (5, ShallowClone),
+        (10, Append),
+        (5, DeleteIds),
+        (3, Update),
+        (3, Upsert),
+        (5, Compact),
+        (2, CreateIndex),
+        (4, Overwrite),
+        (3, Restore),
+        (6, Cleanup),
+        (1, AddColumn),
+        (1, DropColumn),
+    ]
+}
+
+// ---------------------------------------------------------------------------------------------
+// (iv) grammar: independent implementation of the *documented* rules
+// (docs/src/format/table/branch_tag.md and the error messages / doc of check_valid_branch/tag)
+// ---------------------------------------------------------------------------------------------
+
+fn doc_char_ok(c: char) -> bool {
+    // "alphanumeric characters, `.`, `-`, `_`" — the docs do not restrict to ASCII
+    c.is_alphanumeric() || c == '.' || c == '-' || c == '_'
+}
+
+pub fn doc_valid_branch(s: &str) -> bool {
+    if s.is_empty() {
+        return false; // 1
+    }
+    if s.starts_with('/') || s.ends_with('/') {
+        return false; // 2
+    }
+    if s.contains("//") {
+        return false; // 3
+    }
+    if s.contains("..") || s.contains('\\') {
+        return false; // 4
+    }
+    for seg in s.split('/') {
+        if seg.is_empty() || !seg.chars().all(doc_char_ok) {
+            return false; // 5
+        }
+    }
+    if s.ends_with(".lock") {
+        return false; // 6
+    }
+    s != "main" // 7
+}
+
+pub fn doc_valid_tag(s: &str) -> bool {
+    if s.is_empty() {
+        return false; // 1
+    }
+    if !s.chars().all(doc_char_ok) {
+        return false; // 2 (no '/')
+    }
+    if s.starts_with('.') || s.ends_with('.') {
+        return false; // 3
+    }
+    if s.ends_with(".lock") {
+        return false; // 4
+    }
+    !s.contains("..") // 5
+}
+
+const TOKENS: &[&str] = &["a", "1", ".", "-", "_", "/", "\\", " ", "é", "main", ".lock"];
+
+fn grammar_exhaustive(report: &Report) -> (Vec<String>, Vec<String>) {
+    let mut n = 0u64;
+    let mut valid_b = vec![];
+    let mut invalid_b = vec![];
+    let mut accepted = (0u64, 0u64);
+    let mut nonascii_accepted = 0u64;
+    let mut stack: Vec<Vec<usize>> = vec![vec![]];
+    while let Some(cur) = stack.pop() {
+        let s: String = cur.iter().map(|i| TOKENS[*i]).collect();
+        n += 1;
+        let (mb, rb) = (doc_valid_branch(&s), check_valid_branch(&s).is_ok());
+        let (mt, rt) = (doc_valid_tag(&s), check_valid_tag(&s).is_ok());
+        if rb {
+            accepted.0 += 1;
+            if !s.is_ascii() {
+                nonascii_accepted += 1;
+            }
+        }
+        if rt {
+            accepted.1 += 1;
+        }
+        if mb != rb {
+            report.violation(
+                if rb { "branch-name-accepted-against-documented-grammar" } else { "branch-name-rejected-against-documented-grammar" },
+                &format!("check_valid_branch({s:?}) = {rb}, documented rules say {mb}"),
+                json!({"name": s, "lance_accepts": rb, "documented": mb}),
+            );
+        }
+        if mt != rt {
+            report.violation(
+                if rt { "tag-name-accepted-against-documented-grammar" } else { "tag-name-rejected-against-documented-grammar" },
+                &format!("check_valid_tag({s:?}) = {rt}, documented rules say {mt}"),
+                json!({"name": s, "lance_accepts": rt, "documented": mt}),
+            );
+        }
+        if n % 97 == 0 {
+            if rb && valid_b.len() < 400 {
+                valid_b.push(s.clone());
+            } else if !rb && invalid_b.len() < 400 {
+                invalid_b.push(s.clone());
+            }
+        }
+        if cur.len() < 5 {
+            for t in 0..TOKENS.len() {
+                let mut nx = cur.clone();
+                nx.push(t);
+                stack.push(nx);
+            }
+        }
+    }
+    report.count("grammar_strings_checked", n);
+    report.count("grammar_branch_names_accepted", accepted.0);
+    report.count("grammar_tag_names_accepted", accepted.1);
+    report.count("grammar_non_ascii_branch_names_accepted", nonascii_accepted);
+    report.set("grammar_exhaustive_over", json!({"tokens": TOKENS, "max_tokens": 5}));
+    (valid_b, invalid_b)
+}
+
+/// Drive sampled names through the real API on a tiny table: acceptance must agree with the
+/// grammar functions, accepted names must round trip through list/get exactly.
+async fn grammar_through_api(seed: u64, valid: &[String], invalid: &[String], report: &Report) {
+    let mut rng = Rng::for_case(seed, 0xABCD);
+    let mut h = Hist::mem(rng.clone(), {
+        let mut c = HistCfg::random(&mut rng);
+        c.storage = lance_encoding::version::LanceFileVersion::V2_0;
+        c
+    });
+    h.create_table("memory://g0").await;
+    let loc = Loc::main("memory://g0");
+    let sp = h.env.store_params();
+    let mut names: Vec<(String, bool)> = vec![];
+    for i in rng.sample_indices(valid.len(), 25.min(valid.len())) {
+        names.push((valid[i].clone(), true));
+    }
+    for i in rng.sample_indices(invalid.len(), 25.min(invalid.len())) {
+        names.push((invalid[i].clone(), false));
+    }
+    for extra in ["feat", "feat/ure", "feature", "a/b/c", "x.lock", "main", "main/x", "x/main", "a..b", "-", "_", "é/é"] {
+        names.push((extra.to_string(), check_valid_branch(extra).is_ok()));
+    }
+    let mut created = BTreeSet::new();
+    for (name, expect_ok) in names {
+        if created.contains(&name) {
+            continue;
+        }
+        let lin = h.lin.get_mut(&loc).unwrap();
+        let r = lin.head.create_branch(&name, (None, Some(1)), sp.clone()).await;
+        report.count("grammar_names_driven_through_create_branch", 1);
+        match (r.is_ok(), expect_ok) {
+            (true, true) => {
+                created.insert(name.clone());
+            }
+            (false, false) => {
+                report.rejected();
+            }
+            (true, false) => {
+                report.violation(
+                    "create_branch-accepts-name-check_valid_branch-rejects",
+                    &format!("create_branch({name:?}) succeeded"),
+                    json!({"name": name}),
+                );
+            }
+            (false, true) => {
+                let e = r.err().map(|e| e.to_string()).unwrap_or_default();
+                // a valid name may still collide with the directory of an existing branch; only
+                // InvalidRef-style refusals of a grammatical name are a grammar disagreement
+                if e.contains("InvalidRef") || e.contains("invalid characters") {
+                    report.violation(
+                        "create_branch-rejects-grammatical-name",
+                        &format!("create_branch({name:?}) failed: {e}"),
+                        json!({"name": name, "error": e}),
+                    );
+                } else {
+                    report.count("grammar_valid_names_refused_for_other_reasons", 1);
+                    if report.counter("grammar_valid_names_refused_for_other_reasons") <= 3 {
+                        report.set(
+                            &format!("grammar_refusal_{}", report.counter("grammar_valid_names_refused_for_other_reasons")),
+                            json!({"name": name, "error": e.chars().take(200).collect::<String>()}),
+                        );
+                    }
+                }
+            }
+        }
+    }
+    let listed: BTreeSet<String> = match h.lin[&loc].head.list_branches().await {
+        Ok(m) => m.keys().cloned().collect(),
+        Err(e) => {
+            report.violation("list_branches-fails-after-creating-valid-names", &e.to_string(), json!({"created": created}));
+            return;
+        }
+    };
+    if listed != created {
+        report.violation(
+            "branch-names-do-not-round-trip-through-list_branches",
+            &format!("created {:?} listed {:?}", created.difference(&listed).collect::<Vec<_>>(), listed.difference(&created).collect::<Vec<_>>()),
+            json!({"created": created, "listed": listed}),
+        );
+    }
+    report.count("grammar_branch_names_round_tripped", created.len() as u64);
+    // tags
+    let mut tags = BTreeSet::new();
+    for (i, name) in valid.iter().chain(invalid.iter()).enumerate() {
+        if i % 9 != 0 {
+            continue;
+        }
+        let ok = check_valid_tag(name).is_ok();
+        let r = h.lin[&loc].head.tags().create(name, 1).await;
+        report.count("grammar_names_driven_through_tag_create", 1);
+        if r.is_ok() != ok {
+            report.violation(
+                "tag-create-disagrees-with-check_valid_tag",
+                &format!("tags().create({name:?}) ok={} check_valid_tag ok={}", r.is_ok(), ok),
+                json!({"name": name}),
+            );
+        }
+        if r.is_ok() {
+            tags.insert(name.clone());
+        }
+    }
+    match h.lin[&loc].head.tags().list().await {
+        Ok(m) => {
+            let listed: BTreeSet<String> = m.keys().cloned().collect();
+            if listed != tags {
+                report.violation(
+                    "tag-names-do-not-round-trip-through-list",
+                    &format!("created {:?} listed {:?}", tags, listed),
+                    json!({"created": tags, "listed": listed}),
+                );
+            }
+        }
+        Err(e) => {
+            report.violation("tags-list-fails", &e.to_string(), json!({"created": tags}));
+        }
+    }
+}
+
+pub fn run(args: &Args) -> i32 {
+    if args.extra.contains_key("selftest") {
+        return selftest();
+    }
+    let report = Report::new(
+        args,
+        "exploration",
+        "case = one seeded history (<=12 quick / <=40 thorough ops) mixing branch creation from arbitrary (branch, version) parents with colliding hierarchical names (a, a/b, ab, a/b/c, feat, feat/ure, feature), writes/maintenance/cleanup on every lineage, tag create/update/delete, branch deletion, shallow clones. After every step: tags().get/list == model; every other lineage re-read against its snapshots; store-log mutations of the step confined to the directory of the lineage operated on (delete_branch: only tree/<b>/ not under another live branch). Plus exhaustive comparison of check_valid_branch/tag with the documented grammar over all strings of <=5 tokens. Non-trivial = >=2 lineages alive while >=2 later ops committed and >=3 cross-lineage re-reads; distinct by (config, op kinds, outcomes).",
+        (75, 900),
+    )
+    .with_min_nontrivial(10);
+    let max_ops = args.tier.pick(12usize, 40);
+    let max_cases = args.tier.pick(4000u64, 200_000);
+    if let Some(c) = args.extra.get("case").and_then(|c| c.parse::<u64>().ok()) {
+        std::env::set_var("E_HIST_VERBOSE", "1");
+        let rt = tokio::runtime::Builder::new_current_thread().enable_all().build().unwrap();
+        rt.block_on(one_case(args.seed, c, max_ops, &report));
+        return report.finish();
+    }
+    let (valid, invalid) = grammar_exhaustive(&report);
+    {
+        let rt = tokio::runtime::Builder::new_current_thread().enable_all().build().unwrap();
+        rt.block_on(grammar_through_api(args.seed, &valid, &invalid, &report));
+    }
+    crate::hist::run_parallel(&report, args, 16, max_cases, 180, |i, report| {
+        Box::pin(one_case(args.seed, i, max_ops, report))
+    });
+    report.finish()
+}
+
+fn lineage_dir(loc: &Loc) -> String {
+    let root = uri_to_path(&loc.table);
+    match &loc.branch {
+        Some(b) => format!("{root}/tree/{b}"),
+        None => root,
+    }
+}
+
+fn branch_file(table: &str, name: &str) -> String {
+    format!("{}/_refs/branches/{}.json", uri_to_path(table), name.replace('/', "%2F"))
+}
+
+/// Is a mutation of `path` inside the storage that belongs to `owner` alone, given the other live
+/// lineages? (main owns everything under the root except tree/ and _refs/; a branch owns its
+/// directory except nested directories of other live branches)
+fn owned_by(path: &str, owner: &Loc, others: &[Loc]) -> bool {
+    let dir = lineage_dir(owner);
+    let Some(rest) = path.strip_prefix(&format!("{dir}/")) else {
+        return false;
+    };
+    if owner.branch.is_none() && (rest.starts_with("tree/") || rest.starts_with("_refs/")) {
+        return false;
+    }
+    for o in others {
+        if o == owner {
+            continue;
+        }
+        let od = lineage_dir(o);
+        if od.len() > dir.len() && od.starts_with(&format!("{dir}/")) && path.starts_with(&format!("{od}/")) {
+            return false;
+        }
+    }
+    true
+}
+
+/// footprint oracle for one step; returns (violating path, why)
+pub fn footprint_violations(rec: &StepRec, events: &[vmon::store::Event], live_before: &[Loc], live_after: &[Loc]) -> Vec<(String, String)> {
+    let mut out = vec![];
+    let Some(loc) = &rec.loc else { return out };
+    let root = uri_to_path(&loc.table);
+    for e in events {
+        if !e.kind.is_mutating() || !e.applied {
+            continue;
+        }
+        let p = e.dest().to_string();
+        let ok = match (&rec.kind, &rec.extra) {
+            (OpKind::TagCreate | OpKind::TagUpdate | OpKind::TagDelete, _) => p.starts_with(&format!("{root}/_refs/tags/")),
+            (OpKind::BranchCreate, Extra::BranchCreate { new, .. }) => {
+                owned_by(&p, new, live_after) || p == branch_file(&new.table, new.branch.as_deref().unwrap_or(""))
+            }
+            (OpKind::BranchDelete, Extra::BranchDelete { loc: victim, .. }) => {
+                (e.kind == Kind::Delete && owned_by(&p, victim, live_after))
+                    || p == branch_file(&victim.table, victim.branch.as_deref().unwrap_or(""))
+            }
+            (OpKind::ShallowClone, Extra::Clone { new, .. }) => owned_by(&p, new, live_after),
+            (OpKind::BranchCreate | OpKind::BranchDelete | OpKind::ShallowClone, _) => {
+                // refused / failed: may have touched the would-be target only; judged by re-reads
+                true
+            }
+            _ => owned_by(&p, loc, live_before),
+        };
+        if !ok {
+            out.push((p, format!("{} {}", e.kind.name(), if e.kind == Kind::Delete { "deleted" } else { "wrote" })));
+        }
+    }
+    out
+}
+
+async fn one_case(seed: u64, case: u64, max_ops: usize, report: &Report) {
+    let mut rng = Rng::for_case(seed, case);
+    let mut cfg = HistCfg::random(&mut rng);
+    cfg.cleanup_isolated_only = false;
+    let n_ops = rng.urange(6, max_ops);
+    let w = weights();
+    let mut h = Hist::mem(rng.clone(), cfg);
+    h.case = case;
+    h.uniform_locs = true;
+    let rec = h.create_table("memory://t0").await;
+    if !rec.outcome.is_ok() {
+        report.harness_error(&format!("case {case}: create failed: {}", rec.outcome.text()));
+        return;
+    }
+    // two more versions so that branches / tags have something to point at
+    h.step(OpKind::Append).await;
+    h.step(OpKind::DeleteIds).await;
+    let world = h.env.world().unwrap().clone();
+    let mut cross_reads = 0u64;
+    let mut commits_with_many_lineages = 0u64;
+    for _ in 0..n_ops {
+        if !report.time_left() {
+            break;
+        }
+        let kind: OpKind = *rng.pick_weighted(&w);
+        let live_before = h.live_locs();
+        let rec = h.step(kind).await;
+        let live_after = h.live_locs();
+        let ctx = |h: &Hist| json!({"seed": seed, "case": case, "config": h.cfg.describe(), "step": rec.brief(), "ops": h.ops_json(48)});
+        if live_before.len() >= 2 && rec.outcome.is_ok() && !rec.new_versions.is_empty() {
+            commits_with_many_lineages += 1;
+        }
+
+        // (iii) footprint
+        let events = world.events_since(rec.log_from);
+        let events = &events[..(rec.log_to - rec.log_from).min(events.len())];
+        report.count("store_events_inspected", events.len() as u64);
+        report.count("store_mutations_inspected", events.iter().filter(|e| e.kind.is_mutating() && e.applied).count() as u64);
+        let fv = footprint_violations(&rec, events, &live_before, &live_after);
+        if let Some((p, why)) = fv.first() {
+            let class = match rec.kind {
+                OpKind::BranchDelete => "delete_branch-removes-objects-outside-the-branch-directory".to_string(),
+                k => format!("{}-mutates-storage-of-another-lineage", k.name()),
+            };
+            report.violation(
+                &class,
+                &format!("step {} ({} on {:?}) {} {} ({} such objects)", rec.idx, rec.kind.name(), rec.loc.as_ref().map(|l| l.label()), why, p, fv.len()),
+                json!({"ctx": ctx(&h), "paths": fv.iter().take(12).collect::<Vec<_>>(), "live_before": live_before.iter().map(|l| l.label()).collect::<Vec<_>>()}),
+            );
+        }
+        if rec.kind == OpKind::BranchDelete && rec.outcome.is_ok() {
+            report.count("branch_deletes_footprinted", 1);
+            report.count("branch_delete_events", events.iter().filter(|e| e.kind == Kind::Delete && e.applied).count() as u64);
+        }
+
+        // (v) a new branch / clone starts as (parent, version)
+        match (&rec.outcome.is_ok(), &rec.extra) {
+            (true, Extra::BranchCreate { new, parent, version, .. }) | (true, Extra::Clone { new, parent, version }) => {
+                let src = h.lin.get(parent).and_then(|l| l.snaps.get(version));
+                let dst = h.lin.get(new).and_then(|l| l.snaps.values().next());
+                if let (Some(src), Some(dst)) = (src, dst) {
+                    report.count("new_refs_compared_with_parent", 1);
+                    let mut d = dst.clone();
+                    // index entries of a clone point at the parent's files (base id set): compare names
+                    d.indices = src.indices.clone();
+                    let names_equal = dst.index_names == src.index_names;
+                    if let Some((class, detail)) = crate::c07::content_diff(src, &d) {
+                        report.violation(
+                            &format!("new-{}-differs-from-parent-version-{class}", if matches!(rec.extra, Extra::Clone { .. }) { "clone" } else { "branch" }),
+                            &format!("{} was cut from {}:v{} but differs", new.label(), parent.label(), version),
+                            json!({"ctx": ctx(&h), "diff": detail}),
+                        );
+                    } else if !names_equal {
+                        report.violation(
+                            "new-ref-differs-from-parent-version-index-names",
+                            &format!("{} index names {:?} vs parent {:?}", new.label(), dst.index_names, src.index_names),
+                            json!({"ctx": ctx(&h)}),
+                        );
+                    }
+                    if dst.version != *version && matches!(rec.extra, Extra::BranchCreate { .. }) {
+                        report.count("branch_first_version_differs_from_parent_version", 1);
+                    }
+                }
+                if let (Extra::BranchCreate { new, parent, version, .. }, Some(lin)) = (&rec.extra, h.lin.get(&Loc::main(&new.table))) {
+                    match lin.head.branches().get(new.branch.as_deref().unwrap()).await {
+                        Ok(bc) => {
+                            if bc.parent_branch != parent.branch || bc.parent_version != *version {
+                                report.violation(
+                                    "branch-metadata-names-wrong-parent",
+                                    &format!("{:?}:{} recorded for a branch cut from {}:v{}", bc.parent_branch, bc.parent_version, parent.label(), version),
+                                    json!({"ctx": ctx(&h)}),
+                                );
+                            }
+                        }
+                        Err(e) => {
+                            report.violation("branch-metadata-unreadable-after-create", &e.to_string(), json!({"ctx": ctx(&h)}));
+                        }
+                    }
+                }
+            }
+            _ => {}
+        }
+
+        // (i) tags and branch listing of every table
+        for table in h.tables.clone() {
+            let main = Loc::main(&table);
+            let Some(lin) = h.lin.get(&main) else { continue };
+            let want: std::collections::BTreeMap<String, (Option<String>, u64)> = h
+                .tags
+                .iter()
+                .filter(|((t, _), _)| *t == table)
+                .map(|((_, n), v)| (n.clone(), v.clone()))
+                .collect();
+            match lin.head.tags().list().await {
+                Ok(m) => {
+                    report.count("tag_listings_compared", 1);
+                    let got: std::collections::BTreeMap<String, (Option<String>, u64)> =
+                        m.iter().map(|(k, v)| (k.clone(), (v.branch.clone(), v.version))).collect();
+                    if got != want {
+                        report.violation(
+                            "tags-list-differs-from-model",
+                            &format!("after step {} ({}): listed {:?}, expected {:?}", rec.idx, rec.kind.name(), got, want),
+                            json!({"ctx": ctx(&h)}),
+                        );
+                    }
+                }
+                Err(e) => {
+                    report.violation("tags-list-fails", &e.to_string(), json!({"ctx": ctx(&h)}));
+                }
+            }
+            for (name, (br, v)) in &want {
+                // through any live handle of the table
+                let via = h.locs_of_table(&table);
+                let via = &via[rng.usize_below(via.len())];
+                match h.lin[via].head.tags().get(name).await {
+                    Ok(t) => {
+                        report.count("tag_gets_compared", 1);
+                        if t.branch != *br || t.version != *v {
+                            report.violation(
+                                "tag-resolves-to-other-branch-or-version",
+                                &format!("tag {name} = ({:?},{}) expected ({:?},{}) via {}", t.branch, t.version, br, v, via.label()),
+                                json!({"ctx": ctx(&h)}),
+                            );
+                        }
+                    }
+                    Err(e) => {
+                        report.violation(
+                            "tag-get-fails",
+                            &format!("tag {name} via {}: {e}", via.label()),
+                            json!({"ctx": ctx(&h)}),
+                        );
+                    }
+                }
+                // the tagged version must read as its snapshot (if its lineage is still alive and
+                // the version was not removed by a cleanup that was allowed to)
+                let tl = Loc { table: table.clone(), branch: br.clone() };
+                if let Some(snap) = h.lin.get(&tl).and_then(|l| l.snaps.get(v)) {
+                    let r = crate::walker::guard(async {
+                        let ds = h.lin[&main].head.checkout_version(name.as_str()).await.map_err(|e| e.to_string())?;
+                        crate::snap::take_snapshot(&ds, &h.env.raw()).await
+                    })
+                    .await;
+                    report.count("tag_checkouts_compared", 1);
+                    cross_reads += 1;
+                    match r {
+                        Ok(s) => {
+                            if let Some((class, detail)) = crate::snap::diff(snap, &s) {
+                                report.violation(
+                                    &format!("tagged-version-{class}"),
+                                    &format!("checkout of tag {name} -> {}:v{} differs from its snapshot after step {} ({})", tl.label(), v, rec.idx, rec.kind.name()),
+                                    json!({"ctx": ctx(&h), "diff": detail}),
+                                );
+                            }
+                        }
+                        Err(e) => {
+                            let class = classify_unreadable(&h, &rec, &tl);
+                            report.violation(
+                                &format!("tagged-version-unreadable-{class}"),
+                                &format!("tag {name} -> {}:v{} cannot be read after step {} ({}): {}", tl.label(), v, rec.idx, rec.kind.name(), e.chars().take(300).collect::<String>()),
+                                json!({"ctx": ctx(&h), "error": e}),
+                            );
+                        }
+                    }
+                    // (vi) the same through the builder
+                    let b = lance::dataset::builder::DatasetBuilder::from_uri(&table)
+                        .with_read_params(h.env.read_params(true))
+                        .with_tag(name);
+                    report.count("tags_opened_through_builder", 1);
+                    match b.load().await {
+                        Ok(ds) => {
+                            if ds.manifest().version != *v || ds.manifest().branch != *br {
+                                report.violation(
+                                    "builder-with_tag-opens-other-version",
+                                    &format!("with_tag({name}) opened ({:?},{}) expected ({:?},{})", ds.manifest().branch, ds.manifest().version, br, v),
+                                    json!({"ctx": ctx(&h)}),
+                                );
+                            }
+                        }
+                        Err(e) => {
+                            // narrow class: the builder resolves the tag's version number against the
+                            // root first, which need not have that version
+                            let root_has = h.lin.get(&main).map(|l| l.snaps.contains_key(v) || l.removed.contains_key(v) || l.unreadable.contains_key(v)).unwrap_or(false);
+                            let class = if br.is_some() && !root_has && e.to_string().contains("was not found") {
+                                "builder-with_tag-on-branch-fails-when-root-lacks-that-version-number"
+                            } else {
+                                "builder-with_tag-fails"
+                            };
+                            report.violation(
+                                class,
+                                &format!("DatasetBuilder::with_tag({name}) -> {}:v{}: {}", tl.label(), v, e.to_string().chars().take(200).collect::<String>()),
+                                json!({"ctx": ctx(&h)}),
+                            );
+                        }
+                    }
+                }
+            }
+            // branch listing == live branches
+            match lin.head.list_branches().await {
+                Ok(m) => {
+                    let got: BTreeSet<String> = m.keys().cloned().collect();
+                    let want: BTreeSet<String> = h.locs_of_table(&table).into_iter().filter_map(|l| l.branch).collect();
+                    report.count("branch_listings_compared", 1);
+                    if got != want {
+                        report.violation(
+                            "list_branches-differs-from-model",
+                            &format!("after step {} ({}): listed {:?}, expected {:?}", rec.idx, rec.kind.name(), got, want),
+                            json!({"ctx": ctx(&h)}),
+                        );
+                    }
+                }
+                Err(e) => {
+                    report.violation("list_branches-fails", &e.to_string(), json!({"ctx": ctx(&h)}));
+                }
+            }
+        }
+
+        // (ii) every *other* lineage still reads what it read
+        let touched: BTreeSet<Loc> = rec
+            .new_versions
+            .iter()
+            .map(|(l, _)| l.clone())
+            .chain(rec.loc.iter().cloned())
+            .collect();
+        for other in h.live_locs() {
+            let vs: Vec<u64> = h.lin[&other].snaps.keys().copied().collect();
+            if vs.is_empty() {
+                continue;
+            }
+            let mut chosen = vec![*vs.last().unwrap()];
+            for i in rng.sample_indices(vs.len(), 2.min(vs.len())) {
+                chosen.push(vs[i]);
+            }
+            chosen.sort();
+            chosen.dedup();
+            for v in chosen {
+                if rec.new_versions.contains(&(other.clone(), v)) {
+                    continue;
+                }
+                let fresh = rng.bool();
+                let r = h.recheck_version(&other, v, fresh).await;
+                report.count("cross_lineage_rereads", 1);
+                if !touched.contains(&other) {
+                    cross_reads += 1;
+                }
+                let whose = if touched.contains(&other) { "own" } else { "other" };
+                match r {
+                    Ok(None) => {}
+                    Ok(Some((class, detail))) => {
+                        report.violation(
+                            &format!("{whose}-lineage-{class}-after-{}", rec.kind.name()),
+                            &format!("{}:v{} differs from its snapshot after step {} ({} on {:?})", other.label(), v, rec.idx, rec.kind.name(), rec.loc.as_ref().map(|l| l.label())),
+                            json!({"ctx": ctx(&h), "diff": detail}),
+                        );
+                    }
+                    Err(e) => {
+                        let class = classify_unreadable(&h, &rec, &other);
+                        report.violation(
+                            &format!("{whose}-lineage-unreadable-{class}"),
+                            &format!("{}:v{} cannot be read after step {} ({} on {:?}): {}", other.label(), v, rec.idx, rec.kind.name(), rec.loc.as_ref().map(|l| l.label()), e.chars().take(300).collect::<String>()),
+                            json!({"ctx": ctx(&h), "error": e}),
+                        );
+                    }
+                }
+            }
+        }
+    }
+    if std::env::var("E_HIST_VERBOSE").is_ok() {
+        println!("config: {}", h.cfg.describe());
+        for s in &h.steps {
+            println!("{}", s.brief());
+        }
+        for p in &h.problems {
+            println!("PROBLEM {p}");
+        }
+        for p in &h.model_disagreements {
+            println!("MODEL {p}");
+        }
+    }
+    h.count_ops(report);
+    let nontrivial = commits_with_many_lineages >= 2 && cross_reads >= 3;
+    report.case(if nontrivial { Some(h.shape_sig()) } else { None });
+    if report.want_sample() && nontrivial {
+        report.sample(json!({"case": case, "config": h.cfg.describe(),
+                             "lineages": h.live_locs().iter().map(|l| format!("{} <- {:?}", l.label(), h.lin[l].parent.as_ref().map(|(p, v)| format!("{}:{}", p.label(), v)))).collect::<Vec<_>>(),
+                             "deleted_branches": h.dead.iter().map(|l| l.label()).collect::<Vec<_>>(),
+                             "tags": h.tags.iter().map(|((t, n), (b, v))| format!("{t}#{n} -> {:?}:{v}", b)).collect::<Vec<_>>(),
+                             "cross_lineage_reads": cross_reads, "ops": h.ops_json(14)}));
+    }
+}
+
+/// Narrow class of "lineage X became unreadable after step S": which relation does X have to the
+/// lineage the step operated on?
+fn classify_unreadable(h: &Hist, rec: &StepRec, victim: &Loc) -> String {
+    let Some(actor) = &rec.loc else { return format!("after-{}", rec.kind.name()) };
+    // does `victim` descend from `actor` (reads actor's files through base paths)?
+    let mut cur = victim.clone();
+    let mut descends = false;
+    for _ in 0..8 {
+        match h.lin.get(&cur).and_then(|l| l.parent.clone()) {
+            Some((p, _)) => {
+                if p == *actor {
+                    descends = true;
+                    break;
+                }
+                cur = p;
+            }
+            None => break,
+        }
+    }
+    let rel = if victim == actor {
+        "own"
+    } else if descends {
+        "of-a-branch-or-clone-cut-from-the-cleaned-lineage"
+    } else {
+        "unrelated"
+    };
+    format!("{rel}-after-{}", rec.kind.name())
+}
+
+fn selftest() -> i32 {
+    let mut fails = vec![];
+    // grammar model sanity
+    for (s, b, t) in [("a", true, true), ("a/b", true, false), ("main", false, true), ("x.lock", false, false), ("a..b", false, false), (".a", true, false), ("", false, false)] {
+        if doc_valid_branch(s) != b || doc_valid_tag(s) != t {
+            fails.push(format!("grammar model wrong on {s:?}"));
+        }
+    }
+    // footprint oracle: deleting inside a nested live branch must be flagged
+    let victim = Loc { table: "memory://t0".into(), branch: Some("feature".into()) };
+    let others = vec![
+        Loc::main("memory://t0"),
+        Loc { table: "memory://t0".into(), branch: Some("feat".into()) },
+        Loc { table: "memory://t0".into(), branch: Some("feat/ure".into()) },
+    ];
+    if owned_by("t0/tree/feat/ure/_versions/1.manifest", &victim, &others) {
+        fails.push("tree/feat/ure attributed to branch feature".into());
+    }
+    if !owned_by("t0/tree/feature/_versions/1.manifest", &victim, &others) {
+        fails.push("own file not attributed".into());
+    }
+    let feat = others[1].clone();
+    if owned_by("t0/tree/feat/ure/data/x.lance", &feat, &others) {
+        fails.push("nested live branch dir attributed to parent dir branch".into());
+    }
+    if owned_by("t0/tree/a/data/x.lance", &Loc::main("memory://t0"), &others) {
+        fails.push("tree/ attributed to main".into());
+    }
+    if fails.is_empty() {
+        println!("SELFTEST C09 ok");
+        0
+    } else {
+        for f in fails {
+            println!("SELFTEST C09 FAILED: {f}");
+        }
+        2
+    }
 }
